@@ -30,7 +30,7 @@ CLAIM = dict(
     design_ref="DESIGN.md §5 C01, §10",
     note="level 'proof, partial': validity itself is decided by the reference validator (oracle). Trusted: Coq kernel, extraction, "
          "OCaml driver, Rust harness (generator, section reader, supervisor), wasmparser validator. TypeEncoder is a parameter of "
-         "the encoder model; its faults are found by search only (17 known findings listed with narrow signatures, 5 of them the C05 "
+         "the encoder model; its faults are found by search only (the known findings are listed with narrow signatures in known-findings.json, 5 of them the C05 "
          "encoder findings that surface as late validation failures / encoder panics).",
     technique="Coq proofs (history invariants, permutation argument, corollaries of the C02 simulation) + validator-as-oracle search "
               "+ extracted predicates evaluated on real outputs")
